@@ -110,6 +110,15 @@ func deserializeParams(batch arrow.RecordBatch, target reflect.Type) (reflect.Va
 		)
 	}
 
+	// Row 0 is read below. A request whose schema matches but which carries
+	// no row (ReadRequest admits zero-row batches that name an external
+	// location or a shared-memory pointer, and the wrapped inner batch is not
+	// row-checked at all) must be refused here rather than index an empty
+	// column.
+	if len(desc.Fields) > 0 && batch.NumRows() < 1 {
+		return reflect.Value{}, fmt.Errorf("parameter batch has no rows (expected 1)")
+	}
+
 	result := reflect.New(target).Elem()
 
 	for ord, fd := range desc.Fields {
